@@ -508,6 +508,85 @@ def s_range_next(ip, frame, bb, st, callee, args, dty):
     return out
 
 
+def _iter_items(ip, st, it, limit=16):
+    """[(state, [items...])] for a concrete finite iterator value (Range / array IntoIter / slice Iter) with at most `limit` items"""
+    from .interp import Unsupported
+    if isinstance(it, VAgg) and it.defn == "std::ops::Range" and len(it.elems) == 2:
+        start, end = it.elems
+        res = []
+        cur = [(st, [])]
+        for k in range(limit + 1):
+            nxt = []
+            for s2, items in cur:
+                a, b = fork_cmp(s2, "Lt", start.lin + k, end.lin)
+                if b is not None:
+                    res.append((b, items))
+                if a is not None:
+                    nxt.append((a, items + [VInt(start.lin + k, start.w, start.sg)]))
+            cur = nxt
+            if not cur:
+                return res
+        raise Unsupported("range longer than %d" % limit)
+    if isinstance(it, VAgg) and it.defn == "<ArrayIntoIter>":
+        arr, idx = it.elems
+        c = st.const_of(idx.lin)
+        if isinstance(arr, VArr) and c is not None and len(arr.elems) - c <= limit:
+            return [(st, list(arr.elems[c:]))]
+    if isinstance(it, VAgg) and it.defn == "<SliceIter>":
+        sl = it.elems[0]
+        base = ip.read_raw(st, sl.root, sl.steps)
+        s0, n = st.const_of(sl.start), st.const_of(sl.n)
+        if isinstance(base, VArr) and s0 is not None and n is not None and n <= limit:
+            return [(st, [VRef(sl.root, sl.steps + (("ix", Lin.const(s0 + i)),), False) for i in range(n)])]
+    raise Unsupported("iterator value %r" % (it,))
+
+
+def s_try_for_each(ip, frame, bb, st, callee, args, dty):
+    # Iterator::try_for_each(f) over a concrete finite iterator, for f returning Result<(), E>: stops at the first Err
+    from .interp import Unsupported
+    if not (dty.get("k") == "adt" and dty["def"] == RES):
+        raise Unsupported("try_for_each with result " + ty_str(dty))
+    it = args[0] if not isinstance(args[0], VRef) else deref(ip, st, args[0])
+    out = []
+    for s0, items in _iter_items(ip, st, it):
+        cur = [s0]
+        for item in items:
+            nxt = []
+            for s2 in cur:
+                for s3, rv in ip.call_value(frame, bb, s2, args[1], [item], dty):
+                    for s4, var, pay in split_enum(ip, s3, rv, "try_for_each"):
+                        if var == 0:
+                            nxt.append(s4)
+                        else:
+                            out.append((s4, mk(RES, 1, pay[0])))
+            cur = nxt
+        for s2 in cur:
+            out.append((s2, mk(RES, 0, UNIT)))
+    return out
+
+
+def s_iter_position(ip, frame, bb, st, callee, args, dty):
+    from .interp import Unsupported
+    it = deref(ip, st, args[0])
+    out = []
+    for s0, items in _iter_items(ip, st, it, limit=8):
+        cur = [s0]
+        for i, item in enumerate(items):
+            nxt = []
+            for s2 in cur:
+                for s3, bv in ip.call_value(frame, bb, s2, args[1], [item], T.BOOL_TY):
+                    if not isinstance(bv, VBool):
+                        raise Unsupported("position predicate result")
+                    for s4 in ip.branch(s3, bv.e, True):
+                        out.append((s4, mk(OPT, 1, cint(i, 64, False))))
+                    for s4 in ip.branch(s3, bv.e, False):
+                        nxt.append(s4)
+            cur = nxt
+        for s2 in cur:
+            out.append((s2, mk(OPT, 0)))
+    return out
+
+
 def s_slice_iter(ip, frame, bb, st, callee, args, dty):
     return [(st, VAgg("struct", "<SliceIter>", (as_slice(ip, st, args[0]),)))]
 
@@ -1332,6 +1411,10 @@ def install(ip):
     E["std::iter::range::<impl std::iter::Iterator for std::ops::Range<A>>::next"] = s_range_next
     E["core::slice::<impl [T]>::iter"] = s_slice_iter
     E["<std::slice::Iter<'a, T> as std::iter::Iterator>::all"] = s_iter_all
+    E["<std::slice::Iter<'a, T> as std::iter::Iterator>::position"] = s_iter_position
+    E["std::iter::Iterator::try_for_each"] = s_try_for_each
+    E["<std::option::Option<T> as std::cmp::PartialEq>::eq"] = s_derived_eq
+    E["<std::option::Option<T> as std::cmp::PartialEq>::ne"] = s_ne
     for t in ("u16", "u32", "u64", "i8", "i16", "i32", "i64", "u8"):
         E["core::num::<impl %s>::from_be_bytes" % t] = s_from_bytes(True)
         E["core::num::<impl %s>::from_le_bytes" % t] = s_from_bytes(False)
